@@ -801,6 +801,7 @@ VSattach(HFILEID     f,    /* IN: file handle */
     VDATA        *vs = NULL; /* new vdata to be returned */
     vsinstance_t *w  = NULL;
     vfile_t      *vf = NULL;
+    filerec_t    *file_rec = NULL; /* file record */
     int32         acc_mode;
     int32         ret_value = FAIL;
 
@@ -821,6 +822,15 @@ VSattach(HFILEID     f,    /* IN: file handle */
     else if (accesstype[0] == 'W' || accesstype[0] == 'w')
         acc_mode = 'w';
     else
+        HGOTO_ERROR(DFE_BADACC, FAIL);
+
+    /* convert file id to file record and check for validity */
+    file_rec = HAatom_object(f);
+    if (BADFREC(file_rec))
+        HGOTO_ERROR(DFE_ARGS, FAIL);
+
+    /* check for write-permission */
+    if (acc_mode == 'w' && !(file_rec->access & DFACC_WRITE))
         HGOTO_ERROR(DFE_BADACC, FAIL);
 
     /*      */
@@ -1387,11 +1397,12 @@ int32
 VSdelete(int32 f, /* IN: file handle */
          int32 vsid /* IN: vdata id i.e. ref */)
 {
-    void    *v;
-    vfile_t *vf = NULL;
-    void   **t  = NULL;
-    int32    key;
-    int32    ret_value = SUCCEED;
+    void      *v;
+    vfile_t   *vf = NULL;
+    void     **t  = NULL;
+    int32      key;
+    filerec_t *file_rec  = NULL; /* file record */
+    int32      ret_value = SUCCEED;
 
     /* clear error stack */
     HEclear();
@@ -1399,6 +1410,15 @@ VSdelete(int32 f, /* IN: file handle */
     /* check valid vdata id */
     if (vsid < -1)
         HGOTO_ERROR(DFE_ARGS, FAIL);
+
+    /* convert file id to file record and check for validity */
+    file_rec = HAatom_object(f);
+    if (BADFREC(file_rec))
+        HGOTO_ERROR(DFE_ARGS, FAIL);
+
+    /* check for write-permission to file*/
+    if (!(file_rec->access & DFACC_WRITE))
+        HGOTO_ERROR(DFE_BADACC, FAIL);
 
     /* get vdata file record */
     if (NULL == (vf = Get_vfile(f)))
